@@ -366,6 +366,9 @@ func checkSeeks(c *tablegen.Case, data []byte, dec *fmtspec.Table, wantRefs, wan
 					return err
 				}
 				if !ok {
+					if again, _ := it.NextRef(&r); again {
+						return fmt.Errorf("iterator yields a record (%s) after reporting the end of the iteration", hx.RefCanon(&r))
+					}
 					break
 				}
 				got = append(got, hx.RefCanon(&r))
@@ -455,6 +458,9 @@ func checkSeeks(c *tablegen.Case, data []byte, dec *fmtspec.Table, wantRefs, wan
 					return err
 				}
 				if !ok {
+					if again, _ := it.NextLog(&l); again {
+						return fmt.Errorf("iterator yields a record (%s) after reporting the end of the iteration", hx.LogCanon(&l, hs))
+					}
 					break
 				}
 				got = append(got, hx.LogCanon(&l, hs))
